@@ -391,7 +391,8 @@ Ltac named_format key :=
          | |- context [assoc ?k named_formats] => let v := eval vm_compute in (assoc k named_formats) in change (assoc k named_formats) with v; cbv beta iota
          end;
   unfold format; rewrite ?default_locale_is_en, ?en_locale_is_en; cbn [format_loc length];
-  compute_tokenize; cbn [render_pieces bind]; repeat render_step; rewrite ?app_nil_r; try reflexivity.
+  compute_tokenize; cbn [render_pieces bind]; repeat render_step; rewrite ?app_nil_r; try reflexivity;
+  repeat match goal with |- context [bind (tbl_get ?a ?b) _] => destruct (tbl_get a b); cbn [bind] end; rewrite ?app_nil_r; try reflexivity.
 
 Definition K (s : list Z) : str := s.
 
